@@ -9,6 +9,17 @@ macro_rules! cfg {
 
 fn main() {
     let mut run = Run::from_args("C20", "c20");
-    vcore::core_configs!(cfg, &mut run);
+    // quick binary: every digit type with N = 1 and a multi-digit width; 8-, 16- and 24-bit types are the
+    // ones whose RNG word space is enumerated completely
+    cfg!(&mut run, d8, 1, i128);
+    cfg!(&mut run, d8, 2, i128);
+    cfg!(&mut run, d8, 3, i128);
+    cfg!(&mut run, d16, 1, i128);
+    cfg!(&mut run, d16, 3, BigRef);
+    cfg!(&mut run, d32, 1, i128);
+    cfg!(&mut run, d32, 3, BigRef);
+    cfg!(&mut run, d64, 1, BigRef);
+    cfg!(&mut run, d64, 2, BigRef);
+    cfg!(&mut run, d64, 3, BigRef);
     std::process::exit(run.finish());
 }
